@@ -662,7 +662,10 @@ def _run(ctx):
     mixed = []
     m5, m6 = rperm(5), rperm(6)
     for j, b in enumerate([((0, 1, 2), tuple(range(5, -1, -1))), ((2, 1, 0), tuple(range(6))), ((1, 3, 0, 2), (2, 0, 3, 1), m6),
-                           (m5, inv(m5), rev(m5), comp(m5))] +
+                           (m5, inv(m5), rev(m5), comp(m5)),
+                           # a short element next to a long one that is NOT a pin permutation (no pin word at all; the
+                           # shortest such permutations have length 6): only the short element feeds the automaton
+                           ((0, 2, 1), (3, 4, 5, 0, 1, 2)), ((2, 1, 0, 5, 4, 3), (1, 2, 0))] +
                           ([] if quick else [(m6, inv(m6), rev(m6), comp(m6)), (tuple(range(5)), tuple(range(5, -1, -1)))])):
         mixed.append("hfs %s F F F" % fseqs(b))
         mixed.append("strat " + fseqs(b))
